@@ -42,6 +42,7 @@ def run(tier):
     paging.check_memory_class(rep, 'C08', pt.Memory, 'skoolkit.pagingtracer.Memory')
     paging.check_pagingtracer_memory_init(rep, 'C08')
     paging.check_memory_class(rep, 'C08', su.Memory, 'skoolkit.skoolutils.Memory')
+    paging.check_memory_copy(rep, 'C08')            # a copied 128K memory is paged the way its o7ffd says, whatever the banks hold
     for label, fn, via, cls in paging.write_port_targets():
         for is128 in (True, False):
             if via == 'memory' and not is128:
